@@ -136,6 +136,16 @@ func setECS(
 	} else {
 		opt.SetUDPSize(dnsmsg.DefaultEDNSUDPSize)
 
+		// A message may, wrongly, carry several OPT records, and only the one
+		// that is in use, the last one, is rewritten here.  Remove the others,
+		// so that a subnet supplied by the client in another OPT record is
+		// never passed on.
+		msg.Extra = slices.DeleteFunc(msg.Extra, func(rr dns.RR) (ok bool) {
+			other, ok := rr.(*dns.OPT)
+
+			return ok && other != opt
+		})
+
 		for _, o := range opt.Option {
 			if edns, ok := o.(*dns.EDNS0_SUBNET); ok {
 				edns.SourceNetmask = prefixLen
